@@ -388,8 +388,14 @@ func eqVal(a, b *Val) string {
 	case KInt, KBool:
 		return tEq(a.S, b.S)
 	case KArr:
-		n := arrLen(a.T)
-		if n == 0 {
+		if a.T == nil && b.T == nil {
+			return tEq(a.S, b.S) // ghost maps: extensional equality
+		}
+		var n int64
+		if a.T != nil {
+			n = arrLen(a.T)
+		}
+		if n == 0 && b.T != nil {
 			n = arrLen(b.T)
 		}
 		var cs []string
